@@ -1,6 +1,7 @@
 import YV.Drv.S
 import YV.Model.YCompile
 import YV.Spec.YCfgS
+import YV.Model.YUses
 namespace YV.Drv.Cm
 open Lean YV YV.Y YV.SC YV.C YV.Drv YV.Drv.T YV.Drv.S
 
@@ -8,7 +9,8 @@ def metaOf (j : Json) : Meta :=
   { cfg := if jhas j "config" then some (jbool j "config") else none,
     st := match jstr j "status" with | "current" => some 0 | "deprecated" => some 1 | "obsolete" => some 2 | _ => none,
     iff := (jarr j "iff").map fun f => bytesOf (strOf f),
-    notSupported := jbool j "notSupported" }
+    notSupported := jbool j "notSupported",
+    ns := bytesOf "m" }
 
 instance : Inhabited A := ⟨.leafList [] {} none none⟩
 
@@ -29,7 +31,7 @@ def kindStr : Kind → String
   | .choice => "choice" | .case => "case"
 
 def coreOf (a : Attr) : String :=
-  let base := s!"cfg={a.cfg} st={a.st}"
+  let base := s!"ns={strOfTok a.ns} cfg={a.cfg} st={a.st}"
   match a.kind with
   | .container => base ++ s!" flag={a.flag}"
   | .list => base ++ " keys=" ++ ",".intercalate (a.keys.map strOfTok) ++ s!" min={a.mn.getD 0} max={match a.mx with | some x => toString x | none => "unbounded"}"
@@ -45,7 +47,7 @@ partial def dumpCN (ind : String) : CN → String
 
 def dumpTop (ks : List CN) : String :=
   let sorted := ks.toArray.qsort (fun x y => kindStr x.attr.kind ++ " " ++ strOfTok x.attr.name < kindStr y.attr.kind ++ " " ++ strOfTok y.attr.name)
-  "tree  cfg=true st=0\n" ++ String.join (sorted.toList.map (dumpCN " "))
+  "tree  ns= cfg=true st=0\n" ++ String.join (sorted.toList.map (dumpCN " "))
 
 def filters : List (String × (Attr → Bool)) :=
   [("config", fun a => a.cfg), ("state", fun a => !a.cfg), ("excl-state", fun a => a.cfg), ("excl-config", fun a => !a.cfg),
@@ -114,6 +116,12 @@ def classOf (e : String) : String :=
   else if hasSub e "Property being deleted by deviation must exist" then "err:dev-delete-missing"
   else if hasSub e "Property not allowed" then "err:dev-not-allowed"
   else if hasSub e "Invalid path" then "err:dev-bad-path"
+  else if hasSub e "redefinition of name" then "err:name-clash"
+  else if hasSub e "Choice default" then "err:choice-default"
+  else if hasSub e "Leaf cannot have default and be mandatory" then "err:leaf-default-mandatory"
+  else if hasSub e "Choice cannot have default and be mandatory" then "err:choice-default-mandatory"
+  else if hasSub e "Grouping cycle detected" then "err:grouping-cycle"
+  else if hasSub e "Unknown grouping" then "err:unknown-grouping"
   else "err:other:" ++ e
 
 def handleCfg (j : Json) : List (String × Json) :=
@@ -141,5 +149,74 @@ def handleCfg (j : Json) : List (String × Json) :=
     | some et => (match run et [] with | .ok t => ["dump:\n" ++ dumpTop t] | .error _ => dumpM)
     | none => dumpM
   [("m", "\n".intercalate (v :: metaL ++ dumpM)), ("s", "\n".intercalate (v :: metaL ++ dumpS))]
+
+end YV.Drv.Cm
+
+namespace YV.Drv.Cm
+open Lean YV YV.Y YV.SC YV.C YV.CS YV.Drv YV.Drv.T YV.Drv.S
+
+instance : Inhabited G := ⟨.aug [] [] []⟩
+
+def toks (js : List Json) : List Tok := js.map fun x => bytesOf (strOf x)
+def qualIff (js : List Json) : List Tok := js.map fun f => qual "m" (strOf f)
+
+def refineOf (j : Json) : Refine :=
+  { path := toks (jarr j "path"),
+    prop := match jstr j "prop" with
+      | "default" => .dflt | "mandatory" => .mandatory | "presence" => .presence
+      | "min-elements" => .minEl | "max-elements" => .maxEl | _ => .config,
+    val := bytesOf (jstr j "val") }
+
+partial def loadG (j : Json) : G :=
+  let name := bytesOf (jstr j "n")
+  let kids := (jarr j "kids").map loadG
+  let m : Meta := { metaOf j with iff := qualIff (jarr j "iff") }
+  match jstr j "k" with
+  | "container" => .container name m (jbool j "presence") kids
+  | "list" => .list name m (toks (jarr j "keys")) (optNat j "min") (optNat j "max") kids
+  | "leaf" => .leaf name m (jbool j "mandatory") (optStr j "dflt")
+  | "leaf-list" => .leafList name m (optNat j "min") (optNat j "max")
+  | "choice" => .choice name m (jbool j "mandatory") (optStr j "dflt") kids
+  | "uses" => .uses (bytesOf (jstr j "g")) (qualIff (jarr j "iff")) ((jarr j "refines").map refineOf)
+      ((jarr j "augments").map fun a => .aug (toks (jarr a "path")) (qualIff (jarr a "iff")) ((jarr a "kids").map loadG))
+  | _ => .case name m kids
+
+/-- the inline module: nodes (and everything below) named in `a2names` belong to module a2 -/
+partial def setNs (a2 : List Tok) (inA2 : Bool) (a : A) : A :=
+  let here := inA2 || a2.contains a.name
+  let a' := a.setMeta { a.meta with ns := if here then bytesOf "a2" else bytesOf "m" }
+  a'.setKids (a'.kids.map (setNs a2 here))
+
+def stripNsLine (l : String) : String :=
+  " ".intercalate ((l.splitOn " ").filter fun w => !w.startsWith "ns=")
+
+def stripNs (d : String) : String := "\n".intercalate ((d.splitOn "\n").map stripNsLine)
+
+def handleUses (j : Json) : List (String × Json) :=
+  let decls := declsOf "m" (jarr j "features")
+  let raw := toks (jarr j "enabled")
+  let genv : GEnv :=
+    ((jarr j "mgroupings").map fun g => (bytesOf (jstr g "n"), (jarr g "kids").map loadG)) ++
+    ((jarr j "bgroupings").map fun g => (bytesOf ("b:" ++ jstr g "n"), (jarr g "kids").map loadG))
+  let augOf (ns : String) (a : Json) : ModAug :=
+    { ns := bytesOf ns, path := toks (jarr a "path"), iff := qualIff (jarr a "iff"), kids := (jarr a "kids").map loadG }
+  let augs := (jarr j "maugments").map (augOf "m") ++ (jarr j "aaugments").map (augOf "a2")
+  let body := (jarr j "body").map loadG
+  let a2 := toks (jarr j "a2names")
+  let plain := (((jarr j "plain").map loadA).map qualA).map (setNs a2 false)
+  let comp (t : List A) := compileCfg decls raw (bytesOf "m") t []
+  let f : Except String (List CN) := (expandModule genv 100000 body augs).bind comp
+  let p := comp plain
+  let cls (r : Except String (List CN)) := match r with | .ok _ => "ok" | .error e => classOf e
+  let head := ["F:" ++ cls f, "P:" ++ cls p]
+  let mk (useF : Bool) : String :=
+    match f, p with
+    | .ok ft, .ok pt =>
+      let fd := dumpTop ft
+      let pd := dumpTop pt
+      "\n".intercalate (head ++ [if stripNs fd = stripNs pd then "tree:equal" else "tree:DIFF",
+        if fd = pd then "ns:ok" else "ns:BAD", "dump:\n" ++ (if useF then fd else pd)])
+    | _, _ => "\n".intercalate head
+  [("m", mk true), ("s", mk false)]
 
 end YV.Drv.Cm
